@@ -7,6 +7,7 @@ import (
 	"bytes"
 	"fmt"
 	"io"
+	"strconv"
 	"strings"
 	"time"
 
@@ -48,6 +49,7 @@ func init() {
 			var lines []string
 			var consumed = -1
 			accepted := false
+			history := ""
 			pm, hung := guarded(func() {
 				switch kind {
 				case "req":
@@ -80,6 +82,62 @@ func init() {
 						_ = resp.Body()
 						for range resp.Header.Cookies() {
 						}
+					}
+				case "req2", "resp2":
+					// several messages read one after the other into ONE message object, through the one-call and the two-step
+					// (header, then body) entry points, compared with reading each into a fresh object
+					run := func(reuse bool) string {
+						bs := 16 + int(a[1][0])*32
+						src := &slowReader{b: data, step: 1 + int(a[2][0])}
+						br := bufio.NewReaderSize(src, bs)
+						var out []string
+						var req fasthttp.Request
+						var resp fasthttp.Response
+						for i := 0; i < 6; i++ {
+							if !reuse {
+								req, resp = fasthttp.Request{}, fasthttp.Response{}
+							}
+							var err error
+							var body []byte
+							switch {
+							case kind == "req2" && a[3][0]%3 == 0:
+								err = req.ReadLimitBody(br, 1<<16)
+								body = req.Body()
+							case kind == "req2" && a[3][0]%3 == 1:
+								if err = req.Header.Read(br); err == nil {
+									err = req.ContinueReadBody(br, 1<<16)
+								}
+								body = req.Body()
+							case kind == "req2":
+								err = req.Read(br)
+								body = req.Body()
+							case a[3][0]%3 == 0:
+								err = resp.ReadLimitBody(br, 1<<16)
+								body = resp.Body()
+							case a[3][0]%3 == 1:
+								if err = resp.Header.Read(br); err == nil {
+									err = resp.ReadBody(br, 1<<16)
+								}
+								body = resp.Body()
+							default:
+								err = resp.Read(br)
+								body = resp.Body()
+							}
+							if err != nil {
+								out = append(out, "err")
+								break
+							}
+							// what C08 is about: where the reader stands after the message (what the body accessor returns for an
+							// object that was not reset in between is not part of it)
+							_ = body
+							out = append(out, strconv.Itoa(len(data)-len(src.b)-br.Buffered()))
+						}
+						return strings.Join(out, " ")
+					}
+					reused, fresh := run(true), run(false)
+					accepted = !strings.HasPrefix(fresh, "err")
+					if reused != fresh {
+						history = fmt.Sprintf("entry point %d: reader positions after each message read into one reused object: %s; each into a fresh object: %s", a[3][0]%3, reused, fresh)
 					}
 				case "cookie":
 					var c fasthttp.Cookie
@@ -124,6 +182,9 @@ func init() {
 					}
 					if pm != "" {
 						return Verdict{VSpec, "parser-panic", fmt.Sprintf("%s parser panicked on %q: %s", kind, trunc(data, 200), pm)}
+					}
+					if history != "" {
+						return Verdict{VSpec, "reader-position-depends-on-object-history", fmt.Sprintf("%s on %q: %s", kind, trunc(data, 120), history)}
 					}
 					if consumed > len(data) {
 						return Verdict{VSpec, "parser-over-read", fmt.Sprintf("%s: consumed %d of %d bytes", kind, consumed, len(data))}
@@ -184,6 +245,26 @@ func init() {
 					}
 				}
 				return b
+			}
+			// sequences of messages read into one reused message object through every entry point
+			reqMsgs := []string{"GET /a HTTP/1.1\r\nHost: h\r\n\r\n", "POST /a HTTP/1.1\r\nHost: h\r\nContent-Length: 3\r\n\r\nxyz",
+				"POST /a HTTP/1.1\r\nHost: h\r\nTransfer-Encoding: chunked\r\n\r\n3\r\nabc\r\n0\r\n\r\n",
+				"POST /a HTTP/1.1\r\nHost: h\r\nTransfer-Encoding: chunked\r\nTrailer: X-T\r\n\r\n2\r\nhi\r\n1\r\n!\r\n0\r\nX-T: 1\r\n\r\n",
+				"PUT /b HTTP/1.1\r\nHost: h\r\nContent-Length: 0\r\n\r\n", "POST /c HTTP/1.1\r\nHost: h\r\nContent-Type: application/x-www-form-urlencoded\r\nContent-Length: 7\r\n\r\na=1&b=2",
+				"POST /big HTTP/1.1\r\nHost: h\r\nContent-Length: 5000\r\n\r\n" + strings.Repeat("B", 5000), "POST /a HTTP/1.1\r\nHost: h\r\nTransfer-Encoding: chunked\r\n\r\n0\r\n\r\n"}
+			respMsgs := []string{"HTTP/1.1 204 No Content\r\n\r\n", "HTTP/1.1 200 OK\r\nContent-Length: 3\r\n\r\nxyz",
+				"HTTP/1.1 200 OK\r\nTransfer-Encoding: chunked\r\n\r\n3\r\nabc\r\n0\r\n\r\n",
+				"HTTP/1.1 200 OK\r\nTransfer-Encoding: chunked\r\nTrailer: X-T\r\n\r\n2\r\nhi\r\n1\r\n!\r\n0\r\nX-T: 1\r\n\r\n",
+				"HTTP/1.1 200 OK\r\nContent-Length: 0\r\n\r\n", "HTTP/1.1 404 Not Found\r\nContent-Length: 5000\r\n\r\n" + strings.Repeat("B", 5000),
+				"HTTP/1.1 200 OK\r\nTransfer-Encoding: chunked\r\n\r\n0\r\n\r\n", "HTTP/1.1 304 Not Modified\r\nContent-Length: 10\r\n\r\n"}
+			for i := 0; i < 300; i++ {
+				for k, pool := range [][]string{reqMsgs, respMsgs} {
+					var sb strings.Builder
+					for j, m := 0, 2+r.Intn(3); j < m; j++ {
+						sb.WriteString(r.Pick(pool))
+					}
+					emit([]string{"req2", "resp2"}[k], []byte(sb.String()), []byte{byte(r.Intn(256))}, []byte{byte(r.Intn(64))}, []byte{byte(r.Intn(3))})
+				}
 			}
 			// numeric boundaries: chunk sizes of 14..18 hex digits and Content-Length values of 17..21 decimal digits with
 			// extreme leading digits (sign bit / overflow of the accumulating parsers), in requests and responses
